@@ -52,6 +52,12 @@ def py_expr(n):
 		return ('ifexp', py_expr(n.test), py_expr(n.body), py_expr(n.orelse))
 	if isinstance(n, ast.Call) and isinstance(n.func, ast.Name) and not n.keywords:
 		return ('call', n.func.id, [py_expr(a) for a in n.args])
+	if isinstance(n, ast.Call) and isinstance(n.func, ast.Attribute) and not n.keywords:
+		if isinstance(n.func.value, ast.Call) and isinstance(n.func.value.func, ast.Name) and n.func.value.func.id == 'super':
+			return ('supercall', n.func.attr, [py_expr(a) for a in n.args])
+		return ('mcall', py_expr(n.func.value), n.func.attr, [py_expr(a) for a in n.args])
+	if isinstance(n, ast.Attribute):
+		return ('attr', py_expr(n.value), n.attr)
 	raise Unsupported(f'python expression {type(n).__name__}')
 
 
@@ -84,6 +90,16 @@ def py_block(stmts) -> list:
 			out.append(('append', s.value.func.value.id, py_expr(s.value.args[0])))
 		elif isinstance(s, ast.Assign) and len(s.targets) == 1 and isinstance(s.targets[0], ast.Subscript) and isinstance(s.targets[0].value, ast.Name) and not isinstance(s.targets[0].slice, ast.Slice):
 			out.append(('setitem', s.targets[0].value.id, py_expr(s.targets[0].slice), py_expr(s.value)))
+		elif isinstance(s, (ast.Assign, ast.AnnAssign)) and isinstance((s.targets[0] if isinstance(s, ast.Assign) else s.target), ast.Attribute) \
+				and isinstance((s.targets[0] if isinstance(s, ast.Assign) else s.target).value, ast.Name) and s.value is not None:
+			tgt = s.targets[0] if isinstance(s, ast.Assign) else s.target
+			out.append(('setattr', tgt.value.id, tgt.attr, py_expr(s.value)))
+		elif isinstance(s, ast.AugAssign) and isinstance(s.target, ast.Attribute) and isinstance(s.target.value, ast.Name) and type(s.op) in PY_BIN:
+			out.append(('setattr', s.target.value.id, s.target.attr, ('bin', PY_BIN[type(s.op)], ('attr', ('var', s.target.value.id), s.target.attr), py_expr(s.value))))
+		elif isinstance(s, ast.Expr) and isinstance(s.value, ast.Call) and isinstance(s.value.func, ast.Attribute) and not s.value.keywords \
+				and (isinstance(s.value.func.value, ast.Name) or (isinstance(s.value.func.value, ast.Call) and isinstance(s.value.func.value.func, ast.Name) and s.value.func.value.func.id == 'super')):
+			call = py_expr(s.value)
+			out.append(('mstmt', call))
 		elif isinstance(s, ast.Return):
 			out.append(('return', py_expr(s.value) if s.value is not None else None))
 		elif isinstance(s, ast.Break):
@@ -98,6 +114,27 @@ def py_block(stmts) -> list:
 			out.append(('expr', py_expr(s.value)))
 		else:
 			raise Unsupported(f'python statement {type(s).__name__}')
+	return out
+
+
+def _py_function(fn: ast.FunctionDef, skip_self: bool = False) -> tuple:
+	a = fn.args
+	args = a.args[1:] if skip_self else a.args
+	defaults = [None] * (len(args) - len(a.defaults)) + [py_expr(d) for d in a.defaults]
+	params = [(p.arg, ast.unparse(p.annotation), d) for p, d in zip(args, defaults)]
+	return (params, py_block(fn.body), ast.unparse(fn.returns) if fn.returns else None)
+
+
+def py_classes(source: str) -> dict:
+	"""{class name: {'base': name | None, 'fields': [names in declaration order], 'methods': {name: (params, body, return type)}}}"""
+	out = {}
+	for cl in ast.parse(source).body:
+		if not isinstance(cl, ast.ClassDef):
+			continue
+		base = cl.bases[0].id if cl.bases and isinstance(cl.bases[0], ast.Name) else None
+		fields = [st.target.id for st in cl.body if isinstance(st, ast.AnnAssign) and isinstance(st.target, ast.Name)]
+		methods = {st.name: _py_function(st, skip_self=True) for st in cl.body if isinstance(st, ast.FunctionDef)}
+		out[cl.name] = {'base': base, 'fields': fields, 'methods': methods, 'inits': None, 'super_args': None}
 	return out
 
 
@@ -275,6 +312,20 @@ class CppParser:
 				for w in ('.', 'size', '(', ')'):
 					self.eat(w)
 				e = ('len', e)
+			elif self.peek() in ('.', '->') and re.fullmatch(r'[A-Za-z_]\w*', self.peek(1) or ''):
+				self.eat()
+				name = self.eat()
+				if self.peek() == '(':
+					self.eat()
+					args = []
+					while self.peek() != ')':
+						args.append(self.expr())
+						if self.peek() == ',':
+							self.eat()
+					self.eat(')')
+					e = ('mcall', e, name, args)
+				else:
+					e = ('attr', e, name)
 			else:
 				return e
 
@@ -391,6 +442,28 @@ class CppParser:
 			while self.eat() != ';':
 				pass
 			return ('raise',)
+		if t in CLASS_NAMES and re.fullmatch(r'[A-Za-z_]\w*', self.peek(1) or '') and self.peek(2) == '{':
+			cls = self.eat()
+			name = self.eat()
+			self.eat('{')
+			args = []
+			while self.peek() != '}':
+				args.append(self.expr())
+				if self.peek() == ',':
+					self.eat()
+			self.eat('}')
+			self.eat(';')
+			return ('decl', cls, name, ('call', cls, args))
+		if (t == 'this' or re.fullmatch(r'[A-Za-z_]\w*', t or '')) and self.peek(1) in ('.', '->') and re.fullmatch(r'[A-Za-z_]\w*', self.peek(2) or '') and (self.peek(3) or '') in ('=', '+=', '-=', '*=', '%=', '&=', '|=', '^=', '<<=', '>>='):
+			obj = self.eat()
+			self.eat()
+			field = self.eat()
+			op = self.eat()
+			e = self.expr()
+			self.eat(';')
+			if op != '=':
+				e = ('bin', op[:-1], ('attr', ('var', obj), field), e)
+			return ('setattr', obj, field, e)
 		if t == 'std::vector':
 			typ = self.type()
 			name = self.eat()
@@ -451,7 +524,97 @@ class CppParser:
 			return ('aug', op, name, e)
 		e = self.expr()
 		self.eat(';')
+		if e[0] == 'mcall':
+			return ('mstmt', e)
 		return ('expr', e)
+
+
+CLASS_NAMES: set = set()
+CLASS_HEAD = re.compile(r'^class ([A-Za-z_]\w*)(?: : public ([A-Za-z_]\w*))? \{\s*$')
+FIELD = re.compile(r'^\tpublic: (int|bool) ([A-Za-z_]\w*);\s*$')
+METHOD_HEAD = re.compile(r'^\t(int|bool|void)\s+([A-Za-z_]\w*)\((.*?)\)\s*\{\s*$')
+CTOR_HEAD = re.compile(r'^\t([A-Za-z_]\w*)\((.*?)\)(?: : (.*?))? \{(\})?\s*$')
+
+
+def _params(plist: str) -> list:
+	params = []
+	for p in [x.strip() for x in plist.split(',') if x.strip()]:
+		default = None
+		if '=' in p:
+			p, d = p.split('=', 1)
+			default = CppParser(tokens(d)).expr()
+		parts = p.replace('&', ' ').split()
+		params.append((parts[-1], 'list' if 'std::vector<int>' in parts else parts[-2], default))
+	return params
+
+
+def cpp_classes(text: str) -> dict:
+	"""the classes of the emitted translation unit, same layout as py_classes; the constructor is the method '__init__' and carries
+	its member initialiser list ('inits': [(field, expr)]) and base constructor arguments ('super_args')"""
+	lines = text.split('\n')
+	out = {}
+	CLASS_NAMES.clear()
+	for ln in lines:
+		m = CLASS_HEAD.match(ln)
+		if m:
+			CLASS_NAMES.add(m.group(1))
+	i = 0
+	while i < len(lines):
+		m = CLASS_HEAD.match(lines[i])
+		if not m:
+			i += 1
+			continue
+		name, base = m.group(1), m.group(2)
+		cls = {'base': base, 'fields': [], 'methods': {}, 'inits': None, 'super_args': None}
+		j = i + 1
+		while j < len(lines) and lines[j] != '};':
+			ln = lines[j]
+			f = FIELD.match(ln)
+			mh = METHOD_HEAD.match(ln)
+			ch = CTOR_HEAD.match(ln)
+			if f:
+				cls['fields'].append(f.group(2))
+				j += 1
+			elif mh or (ch and ch.group(1) == name):
+				k = j + 1
+				if ch and not mh and ch.group(4):
+					body_text = '{}'
+					k = j
+				else:
+					while k < len(lines) and lines[k] != '\t}':
+						k += 1
+					body_text = '{' + '\n'.join(lines[j + 1:k]) + '}'
+				if mh:
+					cls['methods'][mh.group(2)] = (_params(mh.group(3)), CppParser(tokens(body_text)).block(), mh.group(1))
+				else:
+					inits, super_args = [], None
+					if ch.group(3):
+						p = CppParser(tokens(ch.group(3)))
+						while p.peek() is not None:
+							target = p.eat()
+							p.eat('(')
+							args = []
+							while p.peek() != ')':
+								args.append(p.expr())
+								if p.peek() == ',':
+									p.eat()
+							p.eat(')')
+							if p.peek() == ',':
+								p.eat()
+							if target == base:
+								super_args = args
+							else:
+								if len(args) != 1:
+									raise Unsupported('member initialiser with several arguments')
+								inits.append((target, args[0]))
+					cls['methods']['__init__'] = (_params(ch.group(2)), CppParser(tokens(body_text)).block(), None)
+					cls['inits'], cls['super_args'] = inits, super_args
+				j = k + 1
+			else:
+				j += 1
+		out[name] = cls
+		i = j + 1
+	return out
 
 
 FUNC_HEAD = re.compile(r'^(int|bool|void|std::vector<int>)\s+([A-Za-z_]\w*)\((.*?)\)\s*\{\s*$')
